@@ -205,7 +205,27 @@ def run(model: RepoModel, rep, tier: str):
                             if not ok_side:
                                 resolved = False
                                 why = norm(side)
-        if pruned and not resolved:
+        # ... and the path that is compared is the path of the directory about to be entered: <walk root>/<name>
+        root_var = tgt.elts[0].id if isinstance(tgt, ast.Tuple) and len(tgt.elts) == 3 and isinstance(tgt.elts[0], ast.Name) else None
+        wrong_base = None
+        if pruned and root_var:
+            for n in cfg.loop_body_nodes[w]:
+                st = cfg.stmt.get(n)
+                if cfg.kind[n] == "stmt" and isinstance(st, ast.Assign) and any(isinstance(t, ast.Subscript) and isinstance(t.value, ast.Name)
+                                                                                and t.value.id == dirs_var for t in st.targets):
+                    comp_vars = {g.target.id for x in ast.walk(st.value) if isinstance(x, (ast.GeneratorExp, ast.ListComp)) for g in x.generators
+                                 if isinstance(g.target, ast.Name)}
+                    for j_ in ast.walk(st.value):
+                        if isinstance(j_, ast.Call) and call_name(j_) == "os.path.join" and len(j_.args) >= 2 \
+                                and any(isinstance(a, ast.Name) and a.id in comp_vars for a in j_.args[1:]):
+                            if not (isinstance(j_.args[0], ast.Name) and j_.args[0].id == root_var):
+                                wrong_base = j_
+        if pruned and wrong_base is not None:
+            rep.violation("C18.R4", key, PREP, wrong_base.lineno,
+                          f"the walk decides what to prune by resolving `{norm(wrong_base)}`, which is not the directory it is about to enter "
+                          f"(`os.path.join({root_var}, <name>)`): a workspace deeper than one level below the input (`-w proj/build/ws proj`) is "
+                          f"not recognised and the copy descends into itself")
+        elif pruned and not resolved:
             rep.violation("C18.R4", key, PREP, cfg.stmt[w].lineno,
                           f"the walk prunes the workspace by comparing `{why}`, which is not a resolved path (os.path.realpath): a workspace "
                           f"given through a symlink (`-w out` with out -> proj/build) is not recognised inside the input and the copy "
